@@ -138,7 +138,19 @@ def make_check(real_envs, complex_envs):
             if has_type(res, ("Conj", "Real", "Imag", "ComplexValue")):
                 part.violation(f"{PID}:real-mode-leftover:{key}", f"remove_complex_nodes left complex nodes in {key}", dict(wit, after=repr(res)[:800]))
                 return "VIOLATION"
-            ok &= P.check_pass("remove_complex_nodes", obj, res, real_envs, part, PID, key, wit)
+            # "for real data": environments in which the real-mode expression itself takes a non-real value
+            # (ln / sqrt / acos / fractional power of a negative number) are outside the statement
+            usable = []
+            for env in real_envs:
+                try:
+                    vals = [M.sem(res, M.Ctx(env), r) for r in M.free_index_assignments(res)]
+                except (Ambiguous, Undefined):
+                    continue
+                if all(is_real(const_of(v), mpf("1e-30")) for v in vals):
+                    usable.append(env)
+                else:
+                    part.count("not_real_valued_env")
+            ok &= P.check_pass("remove_complex_nodes", obj, res, usable, part, PID, key, wit)
         return None if ok else "VIOLATION"
 
     return mode_check
